@@ -11,6 +11,7 @@ package main
 import (
 	"fmt"
 	"math"
+	"sort"
 
 	"verif/mc"
 
@@ -113,4 +114,59 @@ func runBuffers() {
 			patternHistory(l, n, steps-1, nil)
 		})
 	chk.Sample("pattern-buffer", histCase{"pattern-buffer", 4, 37, 1, 0.7})
+}
+
+// runLongerPatterns: the pattern slice may be LONGER than the counters (the library itself scores
+// six recorded counters against the seven-element Code 128 stop row): only the first len(counters)
+// pattern entries take part, in the sums as well as in the comparisons. Every table row and
+// synthetic pattern of length >= 2, cut to every shorter counter length, with exact multiples
+// k = 1..6 and every single entry one pixel off.
+func runLongerPatterns() {
+	type pat struct {
+		table string
+		p     []int
+	}
+	var pats []pat
+	tabs := libraryTables()
+	var names []string
+	for k := range tabs {
+		names = append(names, k)
+	}
+	sort.Strings(names)
+	for _, k := range names {
+		for _, p := range tabs[k] {
+			if len(p) >= 2 {
+				pats = append(pats, pat{k, p})
+			}
+		}
+	}
+	for _, p := range [][]int{{1, 2}, {3, 1, 1}, {1, 1, 1, 4}, {2, 3, 3, 1, 1, 1, 2}, {1, 1, 1, 1, 1, 9}} {
+		pats = append(pats, pat{"synthetic", p})
+	}
+	chk.Range(fmt.Sprintf("PatternMatchVariance with a pattern LONGER than the counters: %d patterns x every shorter counter length x exact multiples k=1..6 and every single entry +-1 x %d limits: only the first len(counters) pattern entries count", len(pats), len(limits)), len(pats),
+		func(i int) string { return fmt.Sprint(pats[i]) },
+		func(l *mc.Local, i int) {
+			p := pats[i].p
+			for n := 1; n < len(p); n++ {
+				for k := 1; k <= 6; k++ {
+					c := make([]int, n)
+					for x := range c {
+						c[x] = k * p[x]
+					}
+					for _, lim := range limits {
+						checkVar(l, c, p, lim, pats[i].table+"/longer")
+						for x := range c {
+							for _, d := range []int{-1, 1} {
+								if c[x]+d < 0 {
+									continue
+								}
+								c[x] += d
+								checkVar(l, c, p, lim, pats[i].table+"/longer")
+								c[x] -= d
+							}
+						}
+					}
+				}
+			}
+		})
 }
